@@ -3,6 +3,7 @@ package props
 import (
 	"encoding/hex"
 	"fmt"
+	"strings"
 	"sync"
 
 	"github.com/0chain/common/core/util"
@@ -202,6 +203,13 @@ func runC19(c *fw.Ctx) {
 		for k, j := range others(i) {
 			if util.VerifyMerklePath(ls[j], p, root) || (k == 0 && mt.VerifyPath(leaves[j], p)) {
 				c.Violate("", "n=%d: path of leaf %d verifies for the different leaf %d", n, i, j)
+			}
+			c.Count("other_leaf_rejections", 1)
+		}
+		// the same hash in another letter case is a different leaf hash
+		if up := strings.ToUpper(ls[i]); up != ls[i] && i%7 == 0 {
+			if util.VerifyMerklePath(up, p, root) {
+				c.Violate("", "n=%d i=%d: the path verifies for the upper-case spelling of the leaf hash, which is a different string", n, i)
 			}
 			c.Count("other_leaf_rejections", 1)
 		}
@@ -450,6 +458,31 @@ func runC19(c *fw.Ctx) {
 			c.Count("downward_lookups", 1)
 		}
 	}
+	// a list in which one leaf hash occurs twice: the path of each position proves its own leaf (the later occurrence too)
+	if n%8 == 5 && n >= 3 && n <= 600 {
+		dl := append([]string(nil), ls...)
+		di, dj := c.Rng.Intn(n-1), 0
+		dj = di + 1 + c.Rng.Intn(n-1-di)
+		dl[dj] = dl[di]
+		dleaves := make([]util.Hashable, n)
+		for i := range dl {
+			dleaves[i] = leafHash(dl[i])
+		}
+		var dt util.MerkleTree
+		dt.ComputeTree(dleaves)
+		droot := refMerkleRoot(dl)
+		if dt.GetRoot() != droot {
+			c.Violate("", "n=%d: tree with a repeated leaf hash has root %s, reference %s", n, dt.GetRoot(), droot)
+		}
+		for _, i := range []int{di, dj, 0, n - 1} {
+			p := dt.GetPathByIndex(i)
+			if p == nil || !refVerify(dl[i], p.Nodes, i, droot) || !util.VerifyMerklePath(dl[i], p, droot) || !dt.VerifyPath(dleaves[i], p) {
+				c.Violate("", "n=%d: leaves %d and %d carry the same hash; the path issued for position %d does not verify (VerifyMerklePath / VerifyPath)", n, di, dj, i)
+				break
+			}
+		}
+		c.Count("trees_with_a_repeated_leaf_hash", 1)
+	}
 	// leaves that are pointers to mutable objects: the same objects, one of them edited in place, are computed again into the
 	// same tree object - the tree must follow the leaves' current hashes (not the identity of the objects)
 	if n%8 == 3 && n <= 600 {
@@ -504,7 +537,7 @@ func init() {
 		Cases:      c19Sizes,
 		Run:        runC19,
 		Exhaustive: func(string) bool { return true },
-		Floors:     map[string]int64{"trees": 1000, "trees_of_pointer_leaves_recomputed_after_an_edit": 60, "resized_object_paths": 20000, "downward_lookups": 20000, "trees_above_the_exhaustive_bound": 60, "trees_with_other_leaf_width": 250, "paths_verified": 500000, "other_leaf_rejections": 3000000, "settree_wrong_size_rejected": 1000, "reused_object_paths": 5000, "loaded_tree_paths_after_exporter_reuse": 3000, "paths_after_caller_edits": 3000, "concurrent_independent_tree_groups": 60},
+		Floors:     map[string]int64{"trees": 1000, "trees_with_a_repeated_leaf_hash": 60, "trees_of_pointer_leaves_recomputed_after_an_edit": 60, "resized_object_paths": 20000, "downward_lookups": 20000, "trees_above_the_exhaustive_bound": 60, "trees_with_other_leaf_width": 250, "paths_verified": 500000, "other_leaf_rejections": 3000000, "settree_wrong_size_rejected": 1000, "reused_object_paths": 5000, "loaded_tree_paths_after_exporter_reuse": 3000, "paths_after_caller_edits": 3000, "concurrent_independent_tree_groups": 60},
 		Assumptions: []string{
 			"leaf hashes of one tree are distinct strings of one fixed width (64 hex in most trees, 1..200 characters in a quarter of them): the tree concatenates strings, so leaves of different widths within one tree are outside the property's domain",
 			"exhaustive over n<=N and all indices, not over all leaf values",
